@@ -13,8 +13,13 @@ ADDED_AFTER = {"C02a": "C02.R7", "C08a": "C08.R5", "C10a": "C10.R4", "C11a": "C1
                "C02d": "C02.R9", "C03d": "C03.R8", "C06d": "C06.R6", "C07d": "C07.R8", "C08d": "C08.R4 (initial value of Store.sc)", "C10d": "C10.R8",
                "C11d": "C11.R11", "C12d": "C12.R7", "C13d": "C13.R3 / C10.R3 (no answer without the view)", "C14d": "C14.R3 (height direction)", "C16d": "C16.R4",
                "C17d": "C17.R7", "C19d": "C19.R6",
-               "C02c": "C02.R8", "C07c": "C07.R7", "C08c": "C08.R6 / C10.R7", "C11c": "C11.R10", "C12c": "C12.R6", "C13c": "C13.R5", "C18c": "C18.R7"}
-MISS_WHY = {"C16a": "VerifyProof rejects a true statement for particular tree shapes: completeness of proof verification is value-level (listed as not covered)",
+               "C02c": "C02.R8", "C07c": "C07.R7", "C08c": "C08.R6 / C10.R7", "C11c": "C11.R10", "C12c": "C12.R6", "C13c": "C13.R5", "C18c": "C18.R7",
+               "C18e": "C18.R8", "C13e": "C13.R6"}
+MISS_WHY = {"C04e": "the genesis loader SetOrderBooks tops the escrow pool up only to the sum of the book's orders but still adds every order to Supply.Total: genesis consistency (which pools a genesis file pre-funds) is listed as not covered; the genesis loaders are exempt from the who-may-write rule by design and no ledger primitive is by-passed",
+            "C08e": "rehash() skips recomputing a node hash while a 'clean' flag is set, and the flag is re-armed one pop too early: which nodes are re-hashed for which operation sequence is value-level (canonical trie shape / root equality with a reference are listed as not covered)",
+            "C10e": "the prefixed key of a parent iterator is built in the transaction's shared read buffer, which a later Get overwrites while the iterator still holds it: a lifetime/aliasing fact about a scratch buffer across calls into an interface (lib.RWStoreI.NewIterator) whose implementations retain the slice; no escape analysis through interface calls in reach (iterator semantics are listed as not covered)",
+            "C16e": "traverse() no longer sets the key of a node that getNode did not find; only VerifyProof's partial tree has such nodes: soundness of the verifier's re-traversal is value-level (F4, listed as not covered)",
+            "C20e": "a generic helper trims the next batch first and then compares the number moved with the already shortened list, so a still populated batch is reported empty and deleted: an order-of-evaluation/arithmetic fact about list lengths, value-level","C16a": "VerifyProof rejects a true statement for particular tree shapes: completeness of proof verification is value-level (listed as not covered)",
             "C08b": "a delete is elided from the tree commit when the committed value is empty: which keys reach the tree is value-level (canonical-commitment clause, not covered); the loop that filters is order-insensitive and the rules rightly stay silent",
             "C17b": "the carry-over buffer is three bytes shorter than the largest remainder: a boundary value of the byte-stream-equality clause, which C17 does not claim",
             "C05c": "the signature-cache key is built in a fixed 1000-byte buffer and silently truncated for longer tuples: which bytes reach the key is a boundary value (no length reasoning in reach)",
